@@ -488,7 +488,11 @@ func (r *runner) check(i int, op Op, ms modelSnap, opEnd time.Time) {
 		}
 		r.st.ctxCompared++
 		if d := co.ptr.Context().Err() != nil; d != mc.Done {
-			r.fail("diff", "c15.cluster-ctx", what(fmt.Sprintf("ClusterInfo #%d (%s): Context() done=%v, model says %v", mc.O, mc.Name, d, mc.Done)), d, mc.Done)
+			if mc.Done {
+				r.fail("judge", "c15.deleted-cluster-not-stopped", what(fmt.Sprintf("ClusterInfo #%d (%s) was deleted and its Context() is not done: nothing below it is cut", mc.O, mc.Name)), d, mc.Done)
+			} else {
+				r.fail("judge", "c15.unaffected-cluster-stopped", what(fmt.Sprintf("ClusterInfo #%d (%s) was not deleted and its Context() is done: everything below it is cut", mc.O, mc.Name)), d, mc.Done)
+			}
 		}
 		if resolvable[mc.O] != mc.Resolvable {
 			r.fail("diff", "c15.names", what(fmt.Sprintf("ClusterInfo #%d (%s): resolvable=%v, model says %v", mc.O, mc.Name, resolvable[mc.O], mc.Resolvable)), nil, nil)
@@ -501,11 +505,20 @@ func (r *runner) check(i int, op Op, ms modelSnap, opEnd time.Time) {
 		}
 		r.st.ctxCompared++
 		if d := eo.ptr.Context().Err() != nil; d != me.Done {
-			r.fail("diff", "c15.endpoint-ctx", what(fmt.Sprintf("EndpointInfo #%d (%s of #%d): Context() done=%v, model says %v", me.Id, me.Url, me.Owner, d, me.Done)), d, me.Done)
+			state := fmt.Sprintf("disabled=%v at this point", eo.ptr.IstDisabled())
+			if me.Done {
+				r.fail("judge", "c15.removed-endpoint-not-cancelled", what(fmt.Sprintf("EndpointInfo #%d (%s of cluster #%d, %s) is no longer named by the server list / its cluster was deleted, and its Context() is not done: requests proxied to it are not cut", me.Id, me.Url, me.Owner, state)), d, me.Done)
+			} else {
+				r.fail("judge", "c15.unaffected-endpoint-cancelled", what(fmt.Sprintf("EndpointInfo #%d (%s of cluster #%d, %s) is still named by the server list of a live cluster, and its Context() is done: requests proxied to it are cut", me.Id, me.Url, me.Owner, state)), d, me.Done)
+			}
 		}
 		cur, ok := eo.owner.ptr.Endpoints.Load(w.stubURL(eo.up))
 		if in := ok && cur == eo.ptr; in != me.InMap {
-			r.fail("diff", "c15.endpoint-map", what(fmt.Sprintf("EndpointInfo #%d (%s of #%d): in the endpoint map=%v, model says %v", me.Id, me.Url, me.Owner, in, me.InMap)), in, me.InMap)
+			if !me.InMap {
+				r.fail("judge", "c15.removed-endpoint-still-registered", what(fmt.Sprintf("EndpointInfo #%d (%s of cluster #%d, disabled=%v) is no longer named by the server list but is still in ClusterInfo.Endpoints: it can be picked again", me.Id, me.Url, me.Owner, eo.ptr.IstDisabled())), in, me.InMap)
+			} else {
+				r.fail("judge", "c15.unaffected-endpoint-unregistered", what(fmt.Sprintf("EndpointInfo #%d (%s of cluster #%d) is still named by the server list but is not in ClusterInfo.Endpoints", me.Id, me.Url, me.Owner)), in, me.InMap)
+			}
 		}
 		if d := eo.ptr.IstDisabled(); d != me.Disabled {
 			r.fail("diff", "c15.endpoint-disabled", what(fmt.Sprintf("EndpointInfo #%d: disabled=%v, model says %v", me.Id, d, me.Disabled)), d, me.Disabled)
